@@ -43,13 +43,14 @@ def goenv():
 
 
 class Lock:
-    def __init__(self, name):
+    def __init__(self, name, shared=False):
         os.makedirs(BUILD, exist_ok=True)
         self.path = os.path.join(BUILD, name + ".lock")
+        self.shared = shared
 
     def __enter__(self):
-        self.f = open(self.path, "w")
-        fcntl.flock(self.f, fcntl.LOCK_EX)
+        self.f = open(self.path, "a")
+        fcntl.flock(self.f, fcntl.LOCK_SH if self.shared else fcntl.LOCK_EX)
         return self
 
     def __exit__(self, *a):
@@ -171,7 +172,7 @@ def prove(props_rel, leanchecker=False):
         os.makedirs(os.path.join(BUILD, "audit"), exist_ok=True)
         ap = os.path.join(BUILD, "audit", mod.split(".")[-1] + f"_{os.getpid()}.lean")
         open(ap, "w").write(AUDIT_TEMPLATE.replace("MODULE", mod))
-        with Lock("lake"):
+        with Lock("lake", shared=True):
             rc2, out2 = sh(["lake", "env", "lean", ap], cwd=LEAN, timeout=3000)
         os.unlink(ap)
         for m in re.finditer(r"AXIOMS (\S+) \[([^\]]*)\]", out2):
@@ -219,7 +220,7 @@ def prove(props_rel, leanchecker=False):
     res["axioms_used"] = sorted({a for v in res["axioms"].values() for a in v})
     res["checker_cmd"] = f"cd lean && lake build {mod} && lake env lean {props_rel}"
     if leanchecker and rc == 0:
-        with Lock("lake"):
+        with Lock("lake", shared=True):
             rc3, out3 = sh(["lake", "env", "leanchecker", mod], cwd=LEAN, timeout=3000)
         res["leanchecker_rc"] = rc3
         res["checker_cmd"] += f" && lake env leanchecker {mod}"
@@ -255,7 +256,7 @@ def run_driver(driver_rel, ops_path, out_path):
     rc, out = lake_build(mods)
     if rc != 0:
         return rc, "driver imports failed to build:\n" + out[-1500:]
-    with open(ops_path) as i, open(out_path, "w") as o:
+    with open(ops_path) as i, open(out_path, "w") as o, Lock("lake", shared=True):
         p = subprocess.run(["lake", "env", "lean", "--run", driver_rel], cwd=LEAN, stdin=i, stdout=o,
                            stderr=subprocess.PIPE, text=True, timeout=3000)
     return p.returncode, p.stderr[-1500:]
